@@ -474,6 +474,13 @@ func confirmCLI(v *Violation) map[string]interface{} {
 	return map[string]interface{}{"exit": code, "stdout": trim(so.String()), "stderr": trim(se.String())}
 }
 
+func confirmIf(do bool, v *Violation) map[string]interface{} {
+	if !do {
+		return nil
+	}
+	return confirmCLI(v)
+}
+
 func finish(ch *Check, tier string, t *ShardResult, wall time.Duration, workers int) int {
 	vd := verifDir()
 	findings, ferr := loadFindings(vd)
@@ -516,7 +523,7 @@ func finish(ch *Check, tier string, t *ShardResult, wall time.Duration, workers 
 		rep := map[string]interface{}{
 			"property": ch.ID, "key": k, "count": t.VioCount[k], "case": ex.Case, "desc": ex.Desc,
 			"expected": ex.Expected, "observed": ex.Observed, "repro": ex.Repro, "stdin": ex.Stdin,
-			"cli_confirmation": confirmCLI(&ex),
+			"cli_confirmation": confirmIf(vioLines < 12, &ex),
 			"replay_cmd":       fmt.Sprintf("scripts/run_check.sh %s --replay %s", ch.ID, path),
 		}
 		if f, ok := known[k]; ok && f.Status == "fixed" {
